@@ -110,7 +110,7 @@ PROPS = {
     },
     "C14": {
         "modules": ["Properties.C14"],
-        "theorems": ["C14_denials_are_public", "C14_ok_adds_only_tokens"],
+        "theorems": ["C14_denials_are_public", "C14_public_material_ignores_secrets", "C14_ok_adds_only_tokens"],
         "describe_item": _hist_item, "trusted": _HANDLER_TRUSTED,
         "assumptions": ["logs are not a user-agent channel and are not examined"],
     },
@@ -161,7 +161,7 @@ PROPS = {
     "C20": {
         "modules": ["Properties.C20"],
         "theorems": ["C20_trust_matches_config", "C20_skip_only_if_requested_and_no_ca", "C20_identical_settings_share", "C20_distinct_settings_distinct",
-                     "C20_rotation", "C20_superseded_watcher_stops", "C20_other_settings_do_not_stop_a_watcher"],
+                     "C20_rotation", "C20_rotation_all_histories", "C20_superseded_watcher_stops", "C20_other_settings_do_not_stop_a_watcher"],
         "describe_item": (lambda d, it: {"scenario": d.get("scenario"), "op_index": it, "op": (d.get("ops") or [None] * (it + 1))[it] if isinstance(it, int) and it < len(d.get("ops") or []) else None}),
         "signature": (lambda d, it, codes: "C20/same-file-watcher-superseded" if codes == [12] else None),
         "trusted": ["X.509 verification and the TLS handshake are Go's (judged by real handshakes against loopback servers of throw-away CAs); timers are real (waits of ten intervals); FNV-64a is assumed collision-free on the explored pool keys"],
